@@ -78,11 +78,16 @@ Clause(e) ==
          ELSE IF ~SameView(ObsView(e, FALSE), want) THEN e.op \o ":address"
          ELSE IF e.op = "addressof" /\ e.num # 1 THEN "addressof:neq-add"
          ELSE IF ~NoChange(e) THEN e.op \o ":memory-touched" ELSE ""
+    [] e.op = "cast" ->
+         IF e.st # "ok" THEN "cast:not-accepted"
+         ELSE IF ~SameView(ObsView(e, FALSE), [PtrView(v, 0) EXCEPT !.off = v.off + e.i]) THEN "cast:address"
+         ELSE IF ~NoChange(e) THEN "cast:memory-touched" ELSE ""
     [] e.op = "diff" ->
          IF ~NoChange(e) THEN "diff:memory-touched"
          ELSE IF DiffDefined(v, views[e.b])
            THEN IF e.st # "ok" THEN "diff:not-accepted"
                 ELSE IF e.num # IDiff(v, views[e.b]) THEN "diff:value" ELSE ""
+           ELSE IF DiffTyped(v, views[e.b]) /\ e.st = "ok" THEN "diff:not-a-multiple-accepted"
            ELSE ""
     [] e.op = "offsetof" ->
          IF e.st # "ok" THEN "offsetof:not-accepted"
@@ -94,7 +99,7 @@ Consume ==
   /\ LET e == T.ev[tl]  c == Clause(e) IN
        IF c = ""
          THEN /\ mem' = ObsMem(e)
-              /\ views' = IF e.st = "ok" /\ e.op \in {"slice", "add", "sub", "addressof"}
+              /\ views' = IF e.st = "ok" /\ e.op \in {"slice", "add", "sub", "addressof", "cast"}
                              THEN Append(views, ObsView(e, e.op = "slice" /\ views[e.a].safe /\ views[e.a].k = "arr"))
                              ELSE views
               /\ tl' = tl + 1 /\ UNCHANGED bad
